@@ -514,7 +514,7 @@ impl Harness for C18 {
     fn budget(&self, tier: Tier) -> Budget {
         match tier {
             Tier::Quick => Budget {
-                runs: 60_000,
+                runs: 150_000,
                 soft_s: 60,
             },
             Tier::Thorough => Budget {
@@ -528,7 +528,7 @@ impl Harness for C18 {
         // Swarm: each run draws its own knobs and its own op-kind weights.
         let timeout_ns = *rng.pick(&TIMEOUTS_NS);
         let mut knobs = Knobs::default_for(timeout_ns);
-        knobs.pipe_cap = *rng.pick(&[1usize, 3, 7, 64, 4096, 65536, 65536]);
+        knobs.pipe_cap = *rng.pick(&[512usize, 4096, 65536, 65536]);
         knobs.mem_limit = *rng.pick(&[1000u64, 1 << 20]);
         knobs.policy = match rng.below(8) {
             0 | 1 => Policy::Sticky(8),
@@ -600,6 +600,7 @@ impl Harness for C18 {
             policy: sc.knobs.policy,
             policy_seed: sc.knobs.policy_seed,
             pipe_cap: sc.knobs.pipe_cap,
+            pipe_buf: sc.knobs.pipe_cap.min(4096),
             short_io: (sc.knobs.short_io_pct, 100),
             kill_dead_err: (sc.knobs.kill_dead_err_pct, 100),
             alloc_fail: (0, 1),
@@ -909,7 +910,8 @@ impl Harness for C18 {
             "kill_of_dead_child",
             "pipe_eof",
             "timeout_elapsed",
-            "short_read",
+            "partial_read",
+            "partial_write",
             "short_write",
             "pipe_full",
             "child_end_exit",
